@@ -23,10 +23,15 @@
 #include "opentelemetry/sdk/logs/batch_log_record_processor_options.h"
 #include "opentelemetry/sdk/logs/batch_log_record_processor_runtime_options.h"
 #include "opentelemetry/sdk/logs/exporter.h"
+#include "opentelemetry/sdk/logs/logger_context.h"
+#include "opentelemetry/sdk/logs/logger_context_factory.h"
 #include "opentelemetry/sdk/logs/logger_provider.h"
+#include "opentelemetry/sdk/logs/logger_provider_factory.h"
 #include "opentelemetry/sdk/logs/recordable.h"
 #include "opentelemetry/sdk/logs/simple_log_record_processor.h"
 #include "opentelemetry/sdk/metrics/export/periodic_exporting_metric_reader.h"
+#include "opentelemetry/sdk/metrics/export/periodic_exporting_metric_reader_factory.h"
+#include "opentelemetry/sdk/metrics/export/periodic_exporting_metric_reader_runtime_options.h"
 #include "opentelemetry/sdk/metrics/export/periodic_exporting_metric_reader_options.h"
 #include "opentelemetry/metrics/async_instruments.h"
 #include "opentelemetry/metrics/observer_result.h"
@@ -44,7 +49,10 @@
 #include "opentelemetry/sdk/trace/processor.h"
 #include "opentelemetry/sdk/trace/recordable.h"
 #include "opentelemetry/sdk/trace/simple_processor.h"
+#include "opentelemetry/sdk/trace/tracer_context.h"
+#include "opentelemetry/sdk/trace/tracer_context_factory.h"
 #include "opentelemetry/sdk/trace/tracer_provider.h"
+#include "opentelemetry/sdk/trace/tracer_provider_factory.h"
 
 #include "vf_core.h"
 #include "vf_history.h"
@@ -389,6 +397,97 @@ static std::unique_ptr<sdklogs::LogRecordProcessor> make_batch_log(std::unique_p
   }
 }
 
+// Every way a provider can come to own its processors: the constructors (vector / single processor / ready-made
+// context), the factory overloads, and AddProcessor after construction.  Flush, shutdown and fan-out must not
+// depend on which one was used.
+static std::unique_ptr<sdktrace::TracerProvider> make_tracer_provider(std::vector<std::unique_ptr<sdktrace::SpanProcessor>> procs,
+                                                                      unsigned how)
+{
+  auto &R = vf::report();
+  auto res = opentelemetry::sdk::resource::Resource::Create({});
+  if (procs.size() == 1 && (how & 1))
+  {
+    R.count("provider_built_single_processor");
+    if (how & 2)
+      return sdktrace::TracerProviderFactory::Create(std::move(procs[0]));
+    return std::unique_ptr<sdktrace::TracerProvider>(new sdktrace::TracerProvider(std::move(procs[0])));
+  }
+  switch ((how >> 2) % 6)
+  {
+    case 0:
+      return std::unique_ptr<sdktrace::TracerProvider>(new sdktrace::TracerProvider(std::move(procs)));
+    case 1:
+      R.count("provider_built_by_factory");
+      return sdktrace::TracerProviderFactory::Create(std::move(procs));
+    case 2:
+      R.count("provider_built_by_factory");
+      return sdktrace::TracerProviderFactory::Create(std::move(procs), res);
+    case 3:
+      R.count("provider_built_from_context");
+      return std::unique_ptr<sdktrace::TracerProvider>(
+          new sdktrace::TracerProvider(std::unique_ptr<sdktrace::TracerContext>(new sdktrace::TracerContext(std::move(procs)))));
+    case 4:
+      R.count("provider_built_from_context");
+      return sdktrace::TracerProviderFactory::Create(sdktrace::TracerContextFactory::Create(std::move(procs), res));
+    default:
+    {
+      // the first k processors at construction, the others through AddProcessor
+      R.count("provider_built_with_AddProcessor");
+      size_t k = (how >> 8) % procs.size();
+      std::vector<std::unique_ptr<sdktrace::SpanProcessor>> first;
+      for (size_t i = 0; i < k; ++i)
+        first.push_back(std::move(procs[i]));
+      std::unique_ptr<sdktrace::TracerProvider> p(new sdktrace::TracerProvider(std::move(first)));
+      for (size_t i = k; i < procs.size(); ++i)
+        p->AddProcessor(std::move(procs[i]));
+      return p;
+    }
+  }
+}
+static std::unique_ptr<sdklogs::LoggerProvider> make_logger_provider(std::vector<std::unique_ptr<sdklogs::LogRecordProcessor>> procs,
+                                                                     unsigned how)
+{
+  auto &R = vf::report();
+  auto res = opentelemetry::sdk::resource::Resource::Create({});
+  if (procs.size() == 1 && (how & 1))
+  {
+    R.count("provider_built_single_processor");
+    if (how & 2)
+      return sdklogs::LoggerProviderFactory::Create(std::move(procs[0]));
+    return std::unique_ptr<sdklogs::LoggerProvider>(new sdklogs::LoggerProvider(std::move(procs[0])));
+  }
+  switch ((how >> 2) % 6)
+  {
+    case 0:
+      return std::unique_ptr<sdklogs::LoggerProvider>(new sdklogs::LoggerProvider(std::move(procs)));
+    case 1:
+      R.count("provider_built_by_factory");
+      return sdklogs::LoggerProviderFactory::Create(std::move(procs));
+    case 2:
+      R.count("provider_built_by_factory");
+      return sdklogs::LoggerProviderFactory::Create(std::move(procs), res);
+    case 3:
+      R.count("provider_built_from_context");
+      return std::unique_ptr<sdklogs::LoggerProvider>(
+          new sdklogs::LoggerProvider(std::unique_ptr<sdklogs::LoggerContext>(new sdklogs::LoggerContext(std::move(procs)))));
+    case 4:
+      R.count("provider_built_from_context");
+      return sdklogs::LoggerProviderFactory::Create(sdklogs::LoggerContextFactory::Create(std::move(procs), res));
+    default:
+    {
+      R.count("provider_built_with_AddProcessor");
+      size_t k = (how >> 8) % procs.size();
+      std::vector<std::unique_ptr<sdklogs::LogRecordProcessor>> first;
+      for (size_t i = 0; i < k; ++i)
+        first.push_back(std::move(procs[i]));
+      std::unique_ptr<sdklogs::LoggerProvider> p(new sdklogs::LoggerProvider(std::move(first)));
+      for (size_t i = k; i < procs.size(); ++i)
+        p->AddProcessor(std::move(procs[i]));
+      return p;
+    }
+  }
+}
+
 struct BatchSpanSubject : Subject
 {
   std::unique_ptr<sdktrace::SpanProcessor> proc;
@@ -504,7 +603,7 @@ struct TracerProviderSubject : Subject
         procs.emplace_back(new sdktrace::BatchSpanProcessor(std::unique_ptr<sdktrace::SpanExporter>(new RecSpanExporter(ds)), o2));
       }
     }
-    prov.reset(new sdktrace::TracerProvider(std::move(procs)));
+    prov = make_tracer_provider(std::move(procs), static_cast<unsigned>(seed >> 30));
     tracer  = prov->GetTracer("e2");
     tracer2 = prov->GetTracer("e2-other", "1.2");
   }
@@ -566,7 +665,7 @@ struct LoggerProviderSubject : Subject
         procs.emplace_back(new sdklogs::BatchLogRecordProcessor(std::unique_ptr<sdklogs::LogRecordExporter>(new RecLogExporter(ds)), o2));
       }
     }
-    prov.reset(new sdklogs::LoggerProvider(std::move(procs)));
+    prov = make_logger_provider(std::move(procs), static_cast<unsigned>(seed >> 30));
     logger = prov->GetLogger("e2", "e2lib");
   }
   void produce(uint64_t p, uint64_t s) override
@@ -1722,8 +1821,26 @@ static void run_periodic_history(uint64_t seed, bool thorough)
     sdkmetrics::PeriodicExportingMetricReaderOptions opt;
     opt.export_interval_millis = std::chrono::milliseconds(c.interval_ms);
     opt.export_timeout_millis  = std::chrono::milliseconds(c.timeout_ms);
-    std::shared_ptr<sdkmetrics::MetricReader> reader(new sdkmetrics::PeriodicExportingMetricReader(
-        std::unique_ptr<sdkmetrics::PushMetricExporter>(new RecMetricExporter(script)), opt));
+    auto make_reader = [&opt](std::shared_ptr<Script> sc, unsigned how) -> std::shared_ptr<sdkmetrics::MetricReader> {
+      std::unique_ptr<sdkmetrics::PushMetricExporter> ex(new RecMetricExporter(std::move(sc)));
+      sdkmetrics::PeriodicExportingMetricReaderRuntimeOptions ro;
+      switch (how % 4)
+      {
+        case 0:
+          return std::shared_ptr<sdkmetrics::MetricReader>(new sdkmetrics::PeriodicExportingMetricReader(std::move(ex), opt));
+        case 1:
+          return std::shared_ptr<sdkmetrics::MetricReader>(new sdkmetrics::PeriodicExportingMetricReader(std::move(ex), opt, ro));
+        case 2:
+          return std::shared_ptr<sdkmetrics::MetricReader>(sdkmetrics::PeriodicExportingMetricReaderFactory::Create(std::move(ex), opt));
+        default:
+          return std::shared_ptr<sdkmetrics::MetricReader>(
+              sdkmetrics::PeriodicExportingMetricReaderFactory::Create(std::move(ex), opt, ro));
+      }
+    };
+    unsigned reader_how = static_cast<unsigned>(seed >> 36);
+    if (reader_how % 4)
+      R.count("periodic_reader_built_other_than_2arg_ctor");
+    std::shared_ptr<sdkmetrics::MetricReader> reader = make_reader(script, reader_how);
     // 0..2 decoy readers with their own exporters around the reader under observation (seeded position): a
     // provider-level ForceFlush / Shutdown must reach every reader, whatever the others do with the time budget
     std::vector<std::shared_ptr<Script>> decoy_scripts;
@@ -1744,8 +1861,7 @@ static void run_periodic_history(uint64_t seed, bool thorough)
       ds->slow_us      = 1500;
       ds->flush_false  = ((seed >> (52 + i)) & 3) == 0;
       decoy_scripts.push_back(ds);
-      std::shared_ptr<sdkmetrics::MetricReader> dr(new sdkmetrics::PeriodicExportingMetricReader(
-          std::unique_ptr<sdkmetrics::PushMetricExporter>(new RecMetricExporter(ds)), opt));
+      std::shared_ptr<sdkmetrics::MetricReader> dr = make_reader(ds, static_cast<unsigned>(seed >> (38 + i)));
       decoy_readers.push_back(dr);
       provider->AddMetricReader(dr);
     }
@@ -1810,6 +1926,21 @@ static void run_periodic_history(uint64_t seed, bool thorough)
         th.emplace_back(do_shutdown);
       for (auto &t : th)
         t.join();
+      // operations after Shutdown has returned: more measurements and ForceFlush calls (finite timeouts) through
+      // the reader and the provider must not make the reader export again
+      if ((seed >> 33) & 1)
+      {
+        adder(0, c.adds_each + 100, 5);
+        for (int k = 0; k < 2; ++k)
+        {
+          uint64_t id = g_flush_ids.fetch_add(1, std::memory_order_relaxed);
+          L.add(kFlushCall, id, 1);
+          bool ok = (k == 0 || !c.via_provider) ? reader->ForceFlush(std::chrono::milliseconds(30))
+                                                : provider->ForceFlush(std::chrono::milliseconds(30));
+          L.add(kFlushRet, id, ok ? 1 : 0);
+        }
+        R.count("periodic_post_shutdown_op_sets");
+      }
       // linger a little: a stray cycle after Shutdown would show up as a late Export
       usleep(static_cast<unsigned>(c.interval_ms) * 1500);
     }
